@@ -38,5 +38,12 @@ template <class T> void sort(T* first, T* last) {
     while (j != first && *j < *(j - 1)) { T t = *j; *j = *(j - 1); *(j - 1) = t; --j; }
   }
 }
+// std::sort with a comparison object (insertion sort; called as cmp.operator()(a, b))
+template <class T, class C> void sort(T* first, T* last, C cmp) {
+  for (T* i = first; i != last; ++i) {
+    T* j = i;
+    while (j != first && cmp.operator()(*j, *(j - 1))) { T t = *j; *j = *(j - 1); *(j - 1) = t; --j; }
+  }
+}
 }  // namespace std
 #endif
